@@ -450,6 +450,9 @@ func (e *engine) mergeDelta() error {
 		if len(fundep.Target) != 1 {
 			return fmt.Errorf("merging with |target vars| != 1 not implemented: %v", fundep.Target)
 		}
+		if mergePred.Arity != len(mergePredMode) {
+			return fmt.Errorf("merging more than one column not implemented: %v", mergePred)
+		}
 		targetColumn := fundep.Target[0]
 
 		// Query existing facts whose columns agree on fundep.Source values.
